@@ -3,7 +3,8 @@
    Input (file argv[1], or stdin):
      W <wid> <src:m|c> <entry> <nbytes>\n<text bytes>\n     a workload: MIR text (m) or C source (c); entry is  i64 entry (p buf)
      B <wid> <hexbuf>                                      its input buffer
-     S <sid> <nthreads> <reps> [<late>]                    a schedule ... (late = 1: one concurrent run BEFORE the references)
+     S <sid> <nthreads> <reps> [<late> [<arena>]]          a schedule ... (late = 1: one concurrent run BEFORE the references;
+                                                           arena = 1: the contexts take their code pages from the shared, owner-checked arena)
      T <wid> <level>                                       ... one line per thread (thread index = order, 0-based)
      P <t> <t> ...                                         ... one line per step: the threads that run their next phase
      E                                                     ... end of the schedule: run it
@@ -24,6 +25,10 @@
      O <sid> <rep> <tid> <i|c> <ret> ...                        concurrent observation that differs from the reference
      Q <wid> <level> <hex>                                      c2mir's diagnostics of the reference compilation (if any)
      D <sid> <rep> <tid> <hex>                                  diagnostics of a concurrent compilation that differ from the reference
+     U <wid> <level> <bytes>                                    arena mode: least distance between the end of a generated function and the end of its code holder
+     Y <wid> <level> <n> <text>                                 arena mode, reference run: the context asked to protect/unmap pages it does not own
+     P <sid> <rep> <tid> <n> <text>                             the same in a concurrent run
+     DEAD <sid> <signal> <tid> <phase>                          fatal signal (tid -1: a reference run, -2: not in a workload thread)
      M <sid> <alone|concurrent> <label> <offset> <old> <new>    a guarded object changed during this schedule
      F <sid> <rep> <tid> <phase> <text>                         MIR error callback / failure in a thread
      K <sid> <runs> <diffs>                                     schedule finished
@@ -43,6 +48,8 @@
 #include <time.h>
 #include <dlfcn.h>
 #include <link.h>
+#include <sys/mman.h>
+#undef MAP_FAILED /* mir-code-alloc.h has its own */
 #include "mir.h"
 #include "mir-gen.h"
 #ifdef C18_WITH_C2MIR
@@ -91,6 +98,18 @@ struct thr {
   char fail_text[600];
   int fail_phase;
   jmp_buf errjmp;
+  /* arena mode: the context takes its code pages from the shared arena below */
+  int arena, cur_phase;
+  unsigned owner_id;
+  struct MIR_code_alloc code_alloc;
+  struct { uint8_t *base; size_t len; } maps[64];
+  int nmaps;
+  long foreign;          /* protection / unmap requests that touch pages this context does not own */
+  char foreign_text[200];
+  char *genlog;          /* level 0 debug output of the generator: address and length of every function's code */
+  size_t genlog_len;
+  FILE *genlog_f;
+  long min_slack;        /* min over the generated functions of (end of the code holder - end of the function's code) */
 };
 
 static __thread struct thr *self;
@@ -133,6 +152,7 @@ static void MIR_NO_RETURN err_func (MIR_error_type_t t, const char *fmt, ...) {
 /* watchdog: a thread, not a signal (ThreadSanitizer delays asynchronous signals until the interrupted thread reaches an
    interceptor, which a thread spinning inside the library never does) */
 static long cur_sid = -1;
+static const char *phase_name_of (void *th);
 static long deadline; /* seconds since the epoch, 0 = none; accessed atomically */
 static void *watchdog_main (void *arg) {
   for (;;) {
@@ -146,6 +166,16 @@ static void *watchdog_main (void *arg) {
     usleep (200000);
   }
   return NULL;
+}
+/* a fatal signal: say which schedule and which phase of which thread (async-signal-safe), then die of it */
+static void on_fatal (int sig) {
+  char m[160];
+  struct thr *th = self;
+  int n = snprintf (m, sizeof (m), "\nDEAD %ld %d %d %s\n", __atomic_load_n (&cur_sid, __ATOMIC_SEQ_CST), sig,
+                    th == NULL ? -2 : th->tid, th == NULL ? "harness" : phase_name_of (th));
+  if (write (1, m, n) < 0) {}
+  signal (sig, SIG_DFL);
+  raise (sig);
 }
 static void set_deadline (int seconds) {
   __atomic_store_n (&deadline, seconds == 0 ? 0 : (long) time (NULL) + seconds, __ATOMIC_SEQ_CST);
@@ -238,12 +268,119 @@ static void print_obs (const struct obs *o) {
   printf ("\n");
 }
 
+static const char *phase_name_of (void *p) {
+  struct thr *th = p;
+  int ph = __atomic_load_n (&th->cur_phase, __ATOMIC_RELAXED);
+  return ph >= 0 && ph < NPHASES ? phase_name[ph] : "?";
+}
+
+/* ---- code page arena: one reservation for the whole process; contexts in arena mode get consecutive pages from it (so the
+   code pages of different contexts are neighbours, as consecutive anonymous mmaps usually are), every page has an owner,
+   and every mem_protect / mem_unmap request of a context must lie inside pages this context owns.  Requests are clamped to
+   the owned pages, so a stray request is reported instead of hurting the neighbour.  Lock-free (relaxed atomics) in order
+   not to add synchronisation between the threads that ThreadSanitizer could mistake for the library's. */
+#define APAGE 4096
+#define ARENA_PAGES (1u << 19)
+static uint8_t *arena_base;
+static unsigned arena_next;            /* atomic */
+static unsigned arena_owner_serial;    /* atomic */
+static unsigned *arena_owner;          /* [ARENA_PAGES], atomic accesses; 0 = free */
+
+static void arena_setup (void) {
+  if (arena_base != NULL) return;
+  arena_base = mmap (NULL, (size_t) ARENA_PAGES * APAGE, PROT_NONE, MAP_PRIVATE | MAP_ANONYMOUS | MAP_NORESERVE, -1, 0);
+  arena_owner = calloc (ARENA_PAGES, sizeof (unsigned));
+  if (arena_base == (uint8_t *) -1 || arena_owner == NULL) { printf ("X cannot reserve the code arena\n"); exit (2); }
+}
+
+static void *arena_map (size_t len, void *user_data) {
+  struct thr *th = user_data;
+  unsigned n = (unsigned) ((len + APAGE - 1) / APAGE);
+  unsigned first = __atomic_fetch_add (&arena_next, n, __ATOMIC_RELAXED);
+  uint8_t *res;
+  if ((size_t) first + n > ARENA_PAGES || th->nmaps >= 64) {
+    const char m[] = "\nX code arena exhausted\n";
+    if (write (1, m, sizeof (m) - 1) < 0) {}
+    _exit (2);
+  }
+  res = arena_base + (size_t) first * APAGE;
+  for (unsigned i = 0; i < n; i++) __atomic_store_n (&arena_owner[first + i], th->owner_id, __ATOMIC_RELAXED);
+  if (mprotect (res, (size_t) n * APAGE, PROT_READ | PROT_EXEC) != 0) return NULL;
+  th->maps[th->nmaps].base = res;
+  th->maps[th->nmaps].len = (size_t) n * APAGE;
+  th->nmaps++;
+  return res;
+}
+
+/* the part of [addr, addr + len) that lies in pages owned by TH: returns its page range [*first, *last]; counts the rest */
+static int arena_owned_range (struct thr *th, void *addr, size_t len, const char *what, size_t *first, size_t *last) {
+  size_t f, l, p, of = 1, ol = 0;
+  if ((uint8_t *) addr < arena_base || (uint8_t *) addr + len > arena_base + (size_t) ARENA_PAGES * APAGE || len == 0) {
+    if (th->foreign++ == 0) snprintf (th->foreign_text, sizeof (th->foreign_text), "%s of %zu bytes outside the arena", what, len);
+    return 0;
+  }
+  f = (size_t) ((uint8_t *) addr - arena_base) / APAGE;
+  l = (size_t) ((uint8_t *) addr + len - 1 - arena_base) / APAGE;
+  for (p = f; p <= l; p++) {
+    unsigned o = __atomic_load_n (&arena_owner[p], __ATOMIC_RELAXED);
+    if (o == th->owner_id) {
+      if (of > ol) of = p;
+      ol = p;
+    } else if (th->foreign++ == 0) {
+      snprintf (th->foreign_text, sizeof (th->foreign_text),
+                "%s of pages %zu..%zu (%zu bytes from page offset %zu) during %s: page %zu %s", what, f, l, len,
+                (size_t) ((uint8_t *) addr - arena_base) % APAGE, phase_name[th->cur_phase], p,
+                o == 0 ? "is not mapped for any context" : "belongs to another context");
+    }
+  }
+  if (of > ol) return 0;
+  *first = of; *last = ol;
+  return 1;
+}
+
+static int arena_protect (void *addr, size_t len, MIR_mem_protect_t prot, void *user_data) {
+  struct thr *th = user_data;
+  size_t f, l;
+  if (!arena_owned_range (th, addr, len, "mem_protect", &f, &l)) return 0;
+  return mprotect (arena_base + f * APAGE, (l - f + 1) * APAGE,
+                   prot == PROT_WRITE_EXEC ? (PROT_WRITE | PROT_EXEC) : (PROT_READ | PROT_EXEC));
+}
+
+static int arena_unmap (void *addr, size_t len, void *user_data) {
+  struct thr *th = user_data;
+  size_t f, l;
+  if (!arena_owned_range (th, addr, len, "mem_unmap", &f, &l)) return 0;
+  mprotect (arena_base + f * APAGE, (l - f + 1) * APAGE, PROT_NONE);
+  madvise (arena_base + f * APAGE, (l - f + 1) * APAGE, MADV_DONTNEED);
+  for (size_t p = f; p <= l; p++) __atomic_store_n (&arena_owner[p], 0, __ATOMIC_RELAXED);
+  return 0;
+}
+
+/* the generator's level 0 debug lines "Code generation for F: N MIR insns (addr=A, len=L)": how close to the end of its code
+   holder does each function's code end */
+static void measure_slack (struct thr *th) {
+  char *p;
+  if (th->genlog_f == NULL) return;
+  fflush (th->genlog_f);
+  for (p = th->genlog; p != NULL && (p = strstr (p, "(addr=")) != NULL; p++) {
+    unsigned long long a;
+    unsigned long len;
+    if (sscanf (p, "(addr=%llx, len=%lu)", &a, &len) != 2) continue;
+    for (int i = 0; i < th->nmaps; i++)
+      if ((uint8_t *) (uintptr_t) a >= th->maps[i].base && (uint8_t *) (uintptr_t) a < th->maps[i].base + th->maps[i].len) {
+        long slack = (long) (th->maps[i].base + th->maps[i].len - ((uint8_t *) (uintptr_t) a + len));
+        if (th->min_slack < 0 || slack < th->min_slack) th->min_slack = slack;
+      }
+  }
+}
+
 /* one phase of one thread on its own context */
 static void do_phase (struct thr *th, int ph) {
   struct workload *w = &wl[th->wid];
   MIR_context_t ctx = th->ctx;
   if (th->failed) return;
   self = th;
+  __atomic_store_n (&th->cur_phase, ph, __ATOMIC_RELAXED);
   if (setjmp (th->errjmp)) { /* MIR error callback: the context is abandoned (not finished) */
     th->failed = 1;
     th->fail_phase = ph;
@@ -251,7 +388,16 @@ static void do_phase (struct thr *th, int ph) {
   }
   switch (ph) {
   case PH_INIT:
-    th->ctx = ctx = MIR_init ();
+    if (th->arena) {
+      th->owner_id = __atomic_add_fetch (&arena_owner_serial, 1, __ATOMIC_RELAXED);
+      th->code_alloc.mem_map = arena_map;
+      th->code_alloc.mem_unmap = arena_unmap;
+      th->code_alloc.mem_protect = arena_protect;
+      th->code_alloc.user_data = th;
+      th->ctx = ctx = MIR_init2 (NULL, &th->code_alloc);
+    } else {
+      th->ctx = ctx = MIR_init ();
+    }
     MIR_set_error_func (ctx, err_func);
     break;
   case PH_BUILD:
@@ -322,11 +468,21 @@ static void do_phase (struct thr *th, int ph) {
     MIR_gen_init (ctx);
     th->gen_on = 1;
     MIR_gen_set_optimize_level (ctx, th->level);
+    if (th->arena) {
+      th->genlog_f = open_memstream (&th->genlog, &th->genlog_len);
+      MIR_gen_set_debug_file (ctx, th->genlog_f);
+      MIR_gen_set_debug_level (ctx, 0);
+    }
     break;
   case PH_GEN:
     for (MIR_module_t m = DLIST_HEAD (MIR_module_t, *MIR_get_module_list (ctx)); m != NULL; m = DLIST_NEXT (MIR_module_t, m))
       for (MIR_item_t it = DLIST_HEAD (MIR_item_t, m->items); it != NULL; it = DLIST_NEXT (MIR_item_t, it))
         if (it->item_type == MIR_func_item) MIR_gen (ctx, it);
+    measure_slack (th);
+#ifdef C18_SELFTEST_STRAY_PROTECT
+    /* selftest only: ask for one byte more than the context's first code holder */
+    if (th->arena && th->nmaps > 0) arena_protect (th->maps[0].base, th->maps[0].len + 1, PROT_READ_EXEC, th);
+#endif
     break;
   case PH_GENFIN:
     MIR_gen_finish (ctx);
@@ -335,13 +491,14 @@ static void do_phase (struct thr *th, int ph) {
   case PH_FINISH:
     MIR_finish (ctx);
     th->ctx = NULL;
+    if (th->genlog_f != NULL) { fclose (th->genlog_f); th->genlog_f = NULL; }
     break;
   }
 }
 
 struct sched {
   long sid;
-  int n, reps, nsteps, late_ref;
+  int n, reps, nsteps, late_ref, arena;
   struct thr th[MAXT];
   unsigned step_mask[MAXSTEPS];
   pthread_barrier_t bar;
@@ -373,25 +530,29 @@ static void reset_thr (struct thr *th) {
   free (th->diag); th->diag = NULL;
   th->ctx = NULL; th->gen_on = th->c2m_on = th->failed = th->next_phase = 0;
   th->entry = NULL; th->fail_text[0] = 0; th->fail_phase = -1;
+  if (th->genlog_f != NULL) fclose (th->genlog_f);
+  free (th->genlog);
+  th->genlog = NULL; th->genlog_f = NULL; th->genlog_len = 0;
+  th->nmaps = 0; th->foreign = 0; th->foreign_text[0] = 0; th->min_slack = -1; th->owner_id = 0;
 }
 
 /* reference observations, cached per (workload, level) for the life of the process */
-struct refent { int wid, level, failed, fail_phase; char fail_text[600]; struct obs o[2]; char *diag; };
+struct refent { int wid, level, arena, failed, fail_phase; char fail_text[600]; struct obs o[2]; char *diag; };
 static struct refent **refs; /* entries are allocated one by one: callers keep pointers to them */
 static int nrefs, refs_cap;
 
-static struct refent *reference (int wid, int level) {
-  struct thr t;
+static struct refent *reference (int wid, int level, int arena) {
+  static struct thr t; /* only the main thread calls this, one reference run at a time */
   pthread_t pt;
-  for (int i = 0; i < nrefs; i++) if (refs[i]->wid == wid && refs[i]->level == level) return refs[i];
+  for (int i = 0; i < nrefs; i++) if (refs[i]->wid == wid && refs[i]->level == level && refs[i]->arena == arena) return refs[i];
   memset (&t, 0, sizeof (t));
-  t.tid = 0; t.wid = wid; t.level = level;
+  t.tid = -1; t.wid = wid; t.level = level; t.arena = arena; t.min_slack = -1;
   pthread_create (&pt, NULL, alone_main, &t);
   pthread_join (pt, NULL);
   if (nrefs == refs_cap) { refs_cap = refs_cap ? 2 * refs_cap : 64; refs = realloc (refs, refs_cap * sizeof (*refs)); }
   struct refent *r = calloc (1, sizeof (*r));
   refs[nrefs++] = r;
-  r->wid = wid; r->level = level; r->failed = t.failed; r->fail_phase = t.fail_phase;
+  r->wid = wid; r->level = level; r->arena = arena; r->failed = t.failed; r->fail_phase = t.fail_phase;
   memcpy (r->fail_text, t.fail_text, sizeof (r->fail_text));
   r->o[0] = t.o[0]; r->o[1] = t.o[1];
   r->diag = t.diag;
@@ -400,6 +561,10 @@ static struct refent *reference (int wid, int level) {
     print_hex (r->diag);
   }
   if (r->failed) printf ("G %d %d %s %s\n", wid, level, phase_name[r->fail_phase], r->fail_text);
+  if (arena && t.min_slack >= 0) printf ("U %d %d %ld\n", wid, level, t.min_slack);
+  if (t.foreign != 0) printf ("Y %d %d %ld %s\n", wid, level, t.foreign, t.foreign_text);
+  if (t.genlog_f != NULL) fclose (t.genlog_f);
+  free (t.genlog);
   for (int k = 0; k < 2; k++) {
     printf ("R %d %d %c ", wid, level, "ic"[k]);
     print_obs (&r->o[k]);
@@ -422,6 +587,10 @@ static long compare_rep (int rep, struct refent **ref) {
     if (th->next_phase != NPHASES) {
       diffs++;
       printf ("F %ld %d %d %s schedule left the thread after %d phases\n", sc.sid, rep, t, "sched", th->next_phase);
+    }
+    if (th->foreign != 0) {
+      diffs++;
+      printf ("P %ld %d %d %ld %s\n", sc.sid, rep, t, th->foreign, th->foreign_text);
     }
     if (!same_diag (th->diag, ref[t]->diag)) {
       diffs++;
@@ -462,11 +631,11 @@ static void run_schedule (void) {
     run_concurrently ();
     check_guards (sc.sid, "concurrent");
     runs += sc.n;
-    for (int t = 0; t < sc.n; t++) ref[t] = reference (sc.th[t].wid, sc.th[t].level);
+    for (int t = 0; t < sc.n; t++) ref[t] = reference (sc.th[t].wid, sc.th[t].level, sc.arena);
     check_guards (sc.sid, "alone");
     diffs += compare_rep (0, ref);
   } else {
-    for (int t = 0; t < sc.n; t++) ref[t] = reference (sc.th[t].wid, sc.th[t].level);
+    for (int t = 0; t < sc.n; t++) ref[t] = reference (sc.th[t].wid, sc.th[t].level, sc.arena);
     check_guards (sc.sid, "alone");
     printf ("C %ld\n", sc.sid); /* references exist: the concurrent part begins */
     fflush (stdout);
@@ -497,6 +666,10 @@ int main (int argc, char **argv) {
     pthread_create (&wd, NULL, watchdog_main, NULL);
   }
   setvbuf (stdout, NULL, _IOFBF, 1 << 16);
+  {
+    int sigs[] = {SIGSEGV, SIGBUS, SIGILL, SIGFPE, SIGABRT};
+    for (int i = 0; i < 5; i++) signal (sigs[i], on_fatal);
+  }
 #ifdef C18_WITH_C2MIR
   devnull = fopen ("/dev/null", "w");
 #endif
@@ -542,12 +715,13 @@ int main (int argc, char **argv) {
       if (p != NULL) { printf ("X phase order differs from the specification\n"); return 2; }
     } else if (line[0] == 'S') {
       memset (&sc, 0, sizeof (sc));
-      if (sscanf (line + 2, "%ld %d %d %d", &sc.sid, &sc.n, &sc.reps, &sc.late_ref) < 3 || sc.n < 1 || sc.n > MAXT) { printf ("X bad S line\n"); return 2; }
+      if (sscanf (line + 2, "%ld %d %d %d %d", &sc.sid, &sc.n, &sc.reps, &sc.late_ref, &sc.arena) < 3 || sc.n < 1 || sc.n > MAXT) { printf ("X bad S line\n"); return 2; }
       nt = 0;
+      if (sc.arena) arena_setup ();
     } else if (line[0] == 'T') {
       int wid, level;
       if (nt >= sc.n || sscanf (line + 2, "%d %d", &wid, &level) != 2 || wid < 0 || wid >= MAXW || !wl[wid].used || wl[wid].buf == NULL) { printf ("X bad T line\n"); return 2; }
-      sc.th[nt].tid = nt; sc.th[nt].wid = wid; sc.th[nt].level = level;
+      sc.th[nt].tid = nt; sc.th[nt].wid = wid; sc.th[nt].level = level; sc.th[nt].arena = sc.arena;
       nt++;
     } else if (line[0] == 'P') {
       unsigned mask = 0;
